@@ -83,7 +83,7 @@ def gen(ch):
     if items and ch.chance(1, 4):
         for _ in range(ch.between(1, 2)):
             items[ch.draw(len(items))] = None  # None is an item like any other
-    sc.src = g.src(items, ("agen", "aiter_cls", "aiter_noclose", "aiter_full", "aiter_throwonly"))
+    sc.src = g.src(items, ("agen", "aiter_cls", "aiter_noclose", "aiter_full", "aiter_throwonly", "aiter_sendonly"))
     sc.src.aclose_mode = 0
     sc.src.aclose_suspends = 0
     sc.src.lazy_open = False  # the history advances the underlying iterator directly, without an async-for
@@ -149,7 +149,7 @@ def execute(st, ctx):
     underlying = src.obj
     items = sc.src.items
     n = len(items)
-    has_asend = sc.src.flavour in ("agen", "aiter_full")
+    has_asend = sc.src.flavour in ("agen", "aiter_full", "aiter_sendonly")
     trace = []
     problems = []
     model = {"cursor": 0, "open": True, "closed": False, "exhausted": False, "signalled_stop": False}
